@@ -2,7 +2,7 @@
    propagate.  Statements only; proofs in proofs/ManagerDataInv.v. *)
 From Coq Require Import List Bool Arith ZArith NArith.
 From XD Require Import lib.ListAux lib.Toposort model.Manager model.ManagerData
-  proofs.ManagerIdx proofs.ManagerInv proofs.ManagerDataInv.
+  proofs.ManagerIdx proofs.ManagerInv proofs.ManagerDataInv proofs.ManagerFrozen.
 Import ListNotations.
 Local Open Scope nat_scope.
 
@@ -38,6 +38,43 @@ Theorem C17_readonly : forall (m : dmgr) s o, Inv path_eqb m -> (o = MVerify \/ 
   (forall a b, icount path_eqb (m_tartasks m') a b = icount path_eqb (m_tartasks m) a b).
 Proof. exact frozen_readonly. Qed.
 
+(* the calls a frozen manager rejects are exactly those of the boolean classifier
+   rejectedb (proofs/ManagerFrozen.v): such a call raises the frozen error with the
+   whole state unchanged, every other call (freeze / unfreeze aside) behaves exactly
+   as on the unfrozen manager — same data, same trace, same outcome, same indices *)
+Theorem C17_frozen_step : forall (m : dmgr) s o, is_toggle o = false ->
+  step (set_frozen true m) s o =
+  if rejectedb m s o then (set_frozen true m, s, mkOut (Some EFrozen) []) else lift true (step m s o).
+Proof. exact frozen_step. Qed.
+
+Theorem C17_rejected_covers_graph_changes : forall (m : dmgr) s o,
+  changes_graph m o -> rejectedb m s o = true.
+Proof. exact changes_graph_rejected. Qed.
+
+(* "after unfreeze_tree() the manager behaves as if it had never been frozen", for whole
+   histories with any number of freeze / unfreeze calls in any order (freeze when frozen and
+   unfreeze when not frozen included): the final state is that of the manager which was
+   never frozen and on which the rejected calls were not made; only the flag differs *)
+Theorem C17_never_frozen : forall ops (m : dmgr) s f, m_frozen m = false ->
+  run_final (set_frozen f m) s ops =
+  let '(m', s', f') := never_frozen m s f ops in (set_frozen f' m', s').
+Proof. exact frozen_windows_transparent. Qed.
+
+Theorem C17_end_unfrozen : forall ops (m : dmgr) s m' s',
+  m_frozen m = false -> never_frozen m s false ops = (m', s', false) ->
+  run_final m s ops = (m', s').
+Proof. exact frozen_windows_end_unfrozen. Qed.
+
+(* the flag is moved by freeze / unfreeze only, and unfreeze always unfreezes *)
+Theorem C17_flag_only_toggles : forall (m : dmgr) s o, is_toggle o = false ->
+  m_frozen (fst (fst (step m s o))) = m_frozen m.
+Proof. exact step_frozen_eq. Qed.
+
+Theorem C17_unfreeze_unconditional : forall (m : dmgr) s,
+  m_frozen (fst (fst (step m s MUnfreeze))) = false /\
+  fst (fst (step (fst (fst (step m s MFreeze))) s MFreeze)) = fst (fst (step m s MFreeze)).
+Proof. intros m s. split; reflexivity. Qed.
+
 (* non-vacuity: freeze, a rejected re-definition, a propagating plain assignment, unfreeze *)
 Example C17_nonvacuous :
   let k := 1%N in let a := 2%N in let b := 3%N in
@@ -52,8 +89,28 @@ Example C17_nonvacuous :
   nget (d_st (snd (fst (nth 3 (run_hist empty_mgr st ops) (empty_mgr, st, mkOut None []))))) [k; b] = Some (Leaf 10).
 Proof. cbn. split; reflexivity. Qed.
 
+(* non-vacuity of the window theorem: unbalanced calls (unfreeze when not frozen, freeze
+   twice, one unfreeze), a rejected re-definition inside the window, a definition after it *)
+Example C17_windows_nonvacuous :
+  let k := 1%N in let a := 2%N in let b := 3%N in
+  let st := mkD (Dict [(k, Dict [(a, Leaf 1); (b, Leaf 0)])]) [] None in
+  let def := MSet [k; b] (SExpr (EBin BMul (ERef [k; a]) (EConst 2)) [[k; a]] [[k; b]]) [[k; b]] [] in
+  let ops := [MUnfreeze; MFreeze; MFreeze; def; MSet [k; a] (SPlain (Leaf 5)) [[k; a]] [];
+              MUnfreeze; def; MSet [k; a] (SPlain (Leaf 4)) [[k; a]] [[k; b]]] in
+  map (fun r => o_err (snd r)) (run_hist empty_mgr st ops) = [None; None; None; Some EFrozen; None; None; None; None] /\
+  run_final empty_mgr st ops = run_final empty_mgr st [MSet [k; a] (SPlain (Leaf 5)) [[k; a]] []; def; MSet [k; a] (SPlain (Leaf 4)) [[k; a]] [[k; b]]] /\
+  nget (d_st (snd (run_final empty_mgr st ops))) [k; b] = Some (Leaf 8).
+Proof. vm_compute. repeat split; reflexivity. Qed.
+
 Print Assumptions C17_frozen_rejects.
 Print Assumptions C17_values_propagate.
 Print Assumptions C17_unfreeze_transparent.
 Print Assumptions C17_readonly.
 Print Assumptions C17_nonvacuous.
+Print Assumptions C17_frozen_step.
+Print Assumptions C17_rejected_covers_graph_changes.
+Print Assumptions C17_never_frozen.
+Print Assumptions C17_end_unfrozen.
+Print Assumptions C17_flag_only_toggles.
+Print Assumptions C17_unfreeze_unconditional.
+Print Assumptions C17_windows_nonvacuous.
